@@ -257,6 +257,10 @@ ImplExcl(ix, u) ==
     IN  IF cur # NoRec /\ cur.name = u.name THEN IdOf(cur) ELSE NoDef
 ImplGotoM(ix, D, memo, u) == ImplClosestM(ix, D, memo, u.file, u.name, ImplExcl(ix, u))
 ImplGoto(ix, D, u) == ImplGotoM(ix, D, NoMemo, u).rec
+\* find_fixture_definition starts with `get_file_content(file_path)?`: no cached text and nothing on
+\* disk (a closed in-memory document) -> no answer
+ImplGotoAtM(ix, D, memo, u) ==
+    IF ContentOf(ix, u.file) = NoMod THEN [rec |-> NoRec, memo |-> memo] ELSE ImplGotoM(ix, D, memo, u)
 
 IndexUsages(ix) == UNION { { ix.usages[f][j] : j \in 1..Len(ix.usages[f]) } : f \in Files }
 
